@@ -20,7 +20,22 @@ pub struct Entry {
     l: Layout,
     parse: fn(u32, usize, &str) -> Out,
     boxed: fn(u128) -> Box<dyn AllFmt>,
+    /// the same value inside `Wrapping<F>`, which implements `Display` only (every trait of the box forwards to it)
+    boxed_w: fn(u128) -> Box<dyn AllFmt>,
 }
+
+/// `Wrapping<F>` implements `Display` by forwarding to `F`; this adapter lets the `&dyn AllFmt` renderer drive it
+pub struct ViaDisplay<T: std::fmt::Display>(pub T);
+macro_rules! via_display {
+    ($($Tr:ident)*) => { $(
+        impl<T: std::fmt::Display> std::fmt::$Tr for ViaDisplay<T> {
+            fn fmt(&self, f: &mut std::fmt::Formatter) -> std::fmt::Result {
+                std::fmt::Display::fmt(&self.0, f)
+            }
+        }
+    )* };
+}
+via_display!(Display Debug Binary Octal LowerHex UpperHex);
 
 /// The overflow error is recognised by comparing with a reference error obtained from the library itself
 /// (ParseFixedError is PartialEq but has no public kind accessor); only if that calibration is impossible the
@@ -76,8 +91,11 @@ macro_rules! group {
             fn boxed<F: Lay>(raw: u128) -> Box<dyn AllFmt> {
                 Box::new(F::from_raw(raw))
             }
+            fn boxed_w<F: Lay>(raw: u128) -> Box<dyn AllFmt> {
+                Box::new(ViaDisplay(substrate_fixed::Wrapping(F::from_raw(raw))))
+            }
             pub fn register(v: &mut Vec<Entry>) {
-                $( v.push(Entry { l: <$T as Lay>::LAYOUT, parse: parse::<$T>, boxed: boxed::<$T> }); )*
+                $( v.push(Entry { l: <$T as Lay>::LAYOUT, parse: parse::<$T>, boxed: boxed::<$T>, boxed_w: boxed_w::<$T> }); )*
             }
         }
     };
@@ -408,6 +426,7 @@ fn fmt_job(e: &Entry, tier: Tier, c11: bool) -> JobOut {
     let flag_precs: [Option<usize>; 3] = [None, Some(0), Some(3)];
     for &raw in &flag_values {
         let v = (e.boxed)(raw);
+        let vw = (e.boxed_w)(raw);
         let neg_value = l.z(raw).is_neg();
         for tr in 0..6 {
             for &prec in &flag_precs {
@@ -461,6 +480,23 @@ fn fmt_job(e: &Entry, tier: Tier, c11: bool) -> JobOut {
                                     }
                                     rep.judged += 1;
                                     tally.judged[7] += 1;
+                                    // `Wrapping<F>` displays as `F` does, under every format specification
+                                    if tr == 0 && got.is_some() {
+                                        let gw = subject(|| render(&*vw, &spec));
+                                        rep.transitions += 1;
+                                        rep.judged += 1;
+                                        if gw != got {
+                                            rep.violation(Violation {
+                                                key: format!("{} Display:wrapping", l.class()),
+                                                diff: if gw.is_none() { "panic".into() } else { "wrapping-differs".into() },
+                                                case: format!("text fmt-wrapping {} {:#x} {}", l.name(), raw, spec.to_string()),
+                                                observed: format!("{:?}", gw.unwrap_or_else(|| "panic".into())),
+                                                expected: format!("{:?}", got_s),
+                                                note: "Display of Wrapping<F> must be the Display of F under the same format specification".into(),
+                                                kf: None,
+                                            });
+                                        }
+                                    }
                                     let exp = pad_rule(neg0, body, &spec);
                                     if got_s != exp && got.is_some() && pad_lenient(neg0, body, &spec, &got_s) {
                                         // padding distributed differently from Formatter::pad_integral, but only padding differs
@@ -668,6 +704,25 @@ fn cmd_replay(a: &[String]) -> i32 {
                     println!("DIFFERS (panic)");
                     1
                 }
+            }
+        }
+        "fmt-wrapping" => {
+            let l = Layout::parse(&a[1]).unwrap();
+            let e = tab.iter().find(|e| e.l == l).unwrap();
+            let raw = u128::from_str_radix(a[2].trim_start_matches("0x"), 16).unwrap();
+            let spec = Spec::parse(&a[3]).expect("format spec");
+            let (v, vw) = ((e.boxed)(raw), (e.boxed_w)(raw));
+            let plain = subject(|| render(&*v, &spec));
+            let wrapped = subject(|| render(&*vw, &spec));
+            println!("call:     format!({:?}, Wrapping({}::from_bits({:#x})))", spec.to_string(), l.name(), raw);
+            println!("observed: {:?}", wrapped);
+            println!("expected: {:?} (the rendering of the wrapped value itself)", plain);
+            if plain == wrapped {
+                println!("AGREES");
+                0
+            } else {
+                println!("DIFFERS");
+                1
             }
         }
         "fmt" => {
